@@ -7,6 +7,7 @@ import (
 	"os"
 	"regexp"
 	"strings"
+	"time"
 
 	"verif/harness/core"
 	"verif/harness/gen"
@@ -275,6 +276,67 @@ func runC13(c *core.Ctx) {
 		}
 		if bad != "" {
 			c.Violation("csv log|date-depends-on-time-zone", fmt.Sprintf("TZ=%s: %s", zc.zone, bad), caseDoc{Files: files, Args: args, Env: map[string]string{"TZ": zc.zone}, Observed: resDoc(res)})
+		}
+	}
+	// headings written with a zone offset: the date of a row is the calendar date of its own heading as written,
+	// also when the previous heading denotes the very same instant under another offset, is repeated, or is a
+	// neighbouring instant
+	for zi := 0; zi < c.N(40, 400); zi++ {
+		r := c.Rng("zoned", zi)
+		layout := []string{"2006/01/02 15:04 -07:00", "2006/01/02 15:04 -0700", "2006-01-02T15:04:05Z07:00"}[zi%3]
+		type head struct {
+			text, iso string
+		}
+		mk := func(y, m, d, hh, mm, offMin int) head {
+			t := time.Date(y, time.Month(m), d, hh, mm, 0, 0, time.FixedZone("", offMin*60))
+			return head{t.Format(layout), t.Format("2006-01-02")}
+		}
+		var heads []head
+		offs := []int{120, 0, -300, 330, 765, -720}
+		for len(heads) < 3+r.Intn(6) {
+			y, m, d, hh, mm := 2020+r.Intn(3), 1+r.Intn(12), 1+r.Intn(28), r.Intn(24), r.Intn(60)
+			o1 := offs[r.Intn(len(offs))]
+			h := mk(y, m, d, hh, mm, o1)
+			heads = append(heads, h)
+			switch r.Intn(4) {
+			case 0, 1:
+				// the same instant under another offset (often another calendar date)
+				o2 := offs[r.Intn(len(offs))]
+				t := time.Date(y, time.Month(m), d, hh, mm, 0, 0, time.FixedZone("", o1*60)).In(time.FixedZone("", o2*60))
+				heads = append(heads, head{t.Format(layout), t.Format("2006-01-02")})
+			case 2:
+				heads = append(heads, h)
+			}
+		}
+		var sb strings.Builder
+		var want [][2]string
+		for k, h := range heads {
+			fmt.Fprintf(&sb, "%s:\n  tea, green: 1.5\n  food%d: 2\n", h.text, k)
+			want = append(want, [2]string{h.iso, "tea, green"}, [2]string{h.iso, fmt.Sprintf("food%d", k)})
+		}
+		files := map[string]string{"log.yaml": sb.String()}
+		dir := fmt.Sprintf("%s/zoned%d", c.Work, zi)
+		run.WriteFiles(dir, files)
+		args := []string{"-l", "log.yaml", "--date-format", layout, "csv", "log"}
+		env := map[string]string{"TZ": []string{"UTC", "Europe/Sofia", "America/New_York", "Asia/Kolkata"}[zi%4]}
+		res := run.Exec(c.HR, args, run.ExecOpts{Dir: dir, Env: env})
+		c.Eval(1)
+		c.Count("runs_csv_log_with_zoned_headings", 1)
+		c.Nontrivial("zoned", sb.String())
+		rows, err := obs.ParseCSV(res.Out)
+		bad := ""
+		if res.Exit != 0 || err != nil || len(rows) != len(want) {
+			bad = fmt.Sprintf("exit %d, %v, %d rows for %d", res.Exit, err, len(rows), len(want))
+		} else {
+			for k, row := range rows {
+				if row[0] != want[k][0] || row[1] != want[k][1] {
+					bad = fmt.Sprintf("row %d is %s,%s; its heading %q says %s,%s", k, row[0], row[1], heads[k/2].text, want[k][0], want[k][1])
+					break
+				}
+			}
+		}
+		if bad != "" {
+			c.Violation("csv log|date-of-a-zoned-heading", fmt.Sprintf("layout %q, TZ=%s: %s", layout, env["TZ"], bad), caseDoc{Files: files, Args: args, Env: env, Observed: resDoc(res)})
 		}
 	}
 	// selection by instants that differ only in the fraction of a second (shared with C06)
